@@ -364,8 +364,15 @@ def run_funcrep(c):
     sn = [f"s{i}" for i in range(len(c["sparse"]))]
     dn = [f"d{i}" for i in range(len(c["dense"]))]
     cn = [f"x{i}" for i in range(len(c["cont"]))]
-    lookup = {n: DiscreteGrid(MDL.category_class(k)) for n, k in zip(sn + dn, list(c["sparse"]) + list(c["dense"]), strict=True)}
-    interp = {n: MDL.build_grid(g) for n, g in zip(cn, c["cont"], strict=True)}
+    import random as _random
+
+    _r = _random.Random(c["cid"])
+    lk = list(zip(sn + dn, list(c["sparse"]) + list(c["dense"]), strict=True))
+    ip = list(zip(cn, c["cont"], strict=True))
+    _r.shuffle(lk)      # the dictionaries are keyed by name: their insertion order carries no meaning
+    _r.shuffle(ip)
+    lookup = {n: DiscreteGrid(MDL.category_class(k)) for n, k in lk}
+    interp = {n: MDL.build_grid(g) for n, g in ip}
     axis_names = (["state_index"] if sn else []) + dn + cn
     infos = [IndexerInfo(axis_names=sn, name="state_indexer", out_name="state_index")] if sn else []
     si = SpaceInfo(axis_names=axis_names, lookup_info=lookup, interpolation_info=interp, indexer_infos=infos)
